@@ -9,7 +9,8 @@ EXPLANATION = (
     "encodes but no view decodes: known finding F7); (R2) the evaluated attribute encode set contains the GFF3 reserved bytes "
     "and every delimiter constant the attribute readers split on, and the seqid set is exactly the complement of the "
     "spec's allowed class; (R3) GTF: the bytes the writer escapes with a backslash equal the bytes the reader accepts after "
-    "a backslash, and values are always quoted; (R4) the owned GFF record is built from the lazy accessors (one path).")
+    "a backslash, and values are always quoted; (R4) the owned GFF record is built from the lazy accessors (one path)."
+    " (R5) append-buffer discipline of the GFF/GTF line readers incl. the blank-line skip loop.")
 ASSUMPTIONS = ["percent-encoding crate semantics", "reader delimiter constants are the named DELIMITER/SEPARATOR consts (floor-checked)"]
 NOT_DECIDED = ["equality of arbitrary UTF-8 values; BED optional-column values; directive round trip"]
 
